@@ -1,0 +1,11 @@
+//go:build verif
+
+package vnc
+
+// Contracts for the VNC service (property C01), checked by /verif/govc.
+// Comment-only file: it adds nothing to any build.
+//
+// The frame feeder started per connection cannot panic (it only selects on channels and a ticker).
+//@ func (*vncService).Handle$1
+//@   check safety
+//@   modifies *
